@@ -772,6 +772,37 @@ def c15_extra(tier, seed, ctx):
         distinct.add("EOF after " + " / ".join(script))
         violations += robust(eof_in_search)
 
+    # every go keyword alone with the value 0, and every ordered pair (first keyword 0, second keyword 100), executed on the real
+    # binary with either side to move: zero clocks next to a move time, zero increments, zero budgets — arithmetic on the limits
+    # (clamps, divisions, subtractions) happens on the input thread and in the search thread before the first node
+    GO_KEYS = ["wtime", "btime", "winc", "binc", "movetime", "nodes", "depth"]
+    edge_lines = [f"go {k} 0" for k in GO_KEYS + ["movestogo", "mate"]] + [f"go {a} 0 {b} 100" for a in GO_KEYS for b in GO_KEYS if a != b]
+    for pos in ("position startpos", "position startpos moves e2e4"):
+        def edge_go(scale, pos=pos):
+            v = []
+            eng = Engine(E)
+            eng.send(pos)
+            for gl in edge_lines:
+                idx = len(eng.lines())
+                eng.send(gl)
+                if eng.wait_for(lambda l: l.startswith("bestmove"), 0.6 * scale, idx) is None:
+                    eng.send("stop")          # rejected line, or a search this go does not bound
+                eng.send("isready")
+                if eng.wait_for(lambda l: l == "readyok", 4.0 * scale, idx) is None:
+                    v.append(viol("C15", "not-alive-after-junk", f"[{pos}] then [{gl}]: no readyok; alive={eng.p.poll() is None} stderr={[l for _, l in eng.errlines()][-2:]}"))
+                    eng.kill()
+                    return v
+            eng.send("quit")
+            rc, dt = eng.close(3.0 * scale)
+            if rc != 0:
+                v.append(viol("C15", "quit-not-honoured", f"edge go lines after [{pos}]: exit {rc} after {dt:.1f}s"))
+            if any("panicked" in l for _, l in eng.errlines()):
+                v.append(viol("C15", "panic-on-stderr", f"edge go lines after [{pos}]: stderr={[l for _, l in eng.errlines() if 'panicked' in l][:2]}"))
+            return v
+        evals += len(edge_lines)
+        distinct.add("edge go lines after " + pos)
+        violations += robust(edge_go)
+
     # words other engines understand at the console (none is a UCI command of this engine today): whatever the engine does with
     # them — reject them, or one day implement them — it must stay alive and responsive, also with a warm cache whose best line repeats
     CONSOLE = ["d", "eval", "perft 2", "go perft 2", "bench", "debug on", "debug off", "register later", "ponderhit", "flip", "help", "display", "print",
@@ -861,10 +892,17 @@ def time_limited(limits_line):
     return {k: kv[k] for k in TIME_LIMIT_FIELDS if kv.get(k, "-") != "-"}
 
 
-def fixed_depth_run(engine, fen, depth, timeout=30.0, limits_seen=None):
+def fixed_depth_run(engine, fen, depth, timeout=30.0, limits_seen=None, stall=0.0):
     eng = Engine(engine, env={"RCE_VERIF_TRACE": "1"})
     eng.send(f"position fen {fen}")
     eng.send(f"go depth {depth}")
+    if stall > 0:
+        # the whole process frozen for a while in the middle of the search: wall-clock time passes, nothing else changes
+        for _ in range(3):
+            time.sleep(0.002)
+            eng.p.send_signal(signal.SIGSTOP)
+            time.sleep(stall)
+            eng.p.send_signal(signal.SIGCONT)
     i = eng.wait_for(lambda l: l.startswith("bestmove"), timeout)
     res = canon([l for _, l in eng.lines()])
     eng.send("quit")
@@ -900,6 +938,19 @@ def c16_extra(tier, seed, ctx):
             violations.append(viol("C16", "process-runs-differ", f"fen=[{fen}] depth {depth} a={a[-2:]} b={b[-2:]} loaded={c[-2:]}"))
         if len(samples) < 2 and a:
             samples.append(f"fen=[{fen}] depth {depth}: {a[-2:]} (x2 processes, x1 under 16-way load)")
+    # positions with a short forced mate (iterations become very cheap once it is seen) and a tactical middlegame, searched once
+    # undisturbed and once with the process frozen three times for 150 ms right after the go: a fixed-depth search must not
+    # notice that wall-clock time passed
+    for fen, d in (("7k/8/6K1/8/8/8/8/R7 w - - 0 1", 6), ("3q1k2/3P1rb1/p6r/1p2Rp2/1P5p/P1N2pP1/5B1P/3QRK2 w - - 1 42", 5),
+                   ("1K6/8/Q7/8/5R2/7k/8/8 w - - 0 1", 6), (SEEDS[1], 4)):
+        a = fixed_depth_run(ctx["engine"], fen, d, timeout=60.0)
+        b = fixed_depth_run(ctx["engine"], fen, d, timeout=60.0, stall=0.15)
+        evals += 2
+        distinct.add((fen, "stalled"))
+        if a is None or b is None:
+            violations.append(viol("C16", "no-answer", f"fen=[{fen}] depth {d} (stalled run: {b is None})"))
+        elif a != b:
+            violations.append(viol("C16", "process-runs-differ", f"fen=[{fen}] depth {d}: undisturbed={a[-2:]} frozen-for-3x150ms={b[-2:]}"))
     # the theorem behind C16 (`search_clock_indep`) needs NoTimeLimit: observe it on the searches the binary really runs
     for l in limits_seen:
         if time_limited(l):
